@@ -93,18 +93,28 @@ def truncation_adjoint_fails(case):
 # the same two relations for single registered operations (ops.py): the operation is recorded with
 # Function-wrapped operands; generators in ops.py give every direction its own base point, and for
 # the LU family its own pivot sequence
-def op_sweep(case, ybar_of):
-    """returns ([y data], [xbar data of the UTPM operands]) or None when the operation cannot be recorded"""
+def op_sweep(case, ybar_of, extra=None):
+    """returns ([y data], [xbar data of the UTPM operands]) or None when the operation cannot be recorded.
+    extra='both': every UTPM operand x gets a second consumer x*x recorded AFTER the operation (its adjoint is non-zero
+    when the operation's pullback runs); extra='only': a graph with those consumers alone"""
     import ops
     from algopy import CGraph, Function
     with np.errstate(all='ignore'):
         cg = CGraph()
         raw = ops.build_args(case)
         fargs = [Function(a) if isinstance(a, UTPM) else a for a in raw]
-        r = ops.OPS[case['op']]['call'](fargs)
-        if isinstance(r, Function) and isinstance(r.x, tuple):
-            r = [r[i] for i in range(len(r.x))]          # several outputs: one Function per output, as `l, Q = eigh(A)` does
-        outs = [o for o in (r if isinstance(r, (tuple, list)) else [r]) if isinstance(o, Function) and isinstance(o.x, UTPM)]
+        if extra == 'only':
+            # the consumers alone: the operation is NOT recorded (its pullback must not touch these adjoints at all)
+            outs = [f * f for f in fargs if isinstance(f, Function)]
+        else:
+            r = ops.OPS[case['op']]['call'](fargs)
+            if isinstance(r, Function) and isinstance(r.x, tuple):
+                r = [r[i] for i in range(len(r.x))]          # several outputs: one Function per output, as `l, Q = eigh(A)` does
+            outs = [o for o in (r if isinstance(r, (tuple, list)) else [r]) if isinstance(o, Function) and isinstance(o.x, UTPM)]
+            if extra == 'both':
+                if not outs:
+                    return None
+                outs = outs + [f * f for f in fargs if isinstance(f, Function)]
         cg.trace_off()
         if not outs:
             return None
@@ -171,6 +181,29 @@ def op_truncation_adjoint_fails(case):
             if not close(a[:Dp], b, 1e-8):
                 return 'truncation-adjoint-op-%s: the first %d adjoint coefficients of operand %d computed with D=%d differ from the sweep with D\'=%d (max diff %s)' % (
                     case['op'], Dp, i, D, Dp, maxdiff(a[:Dp], b))
+    return None
+
+
+def op_superposition_fails(case):
+    """the reverse sweep is linear and accumulates: with a second consumer x*x of every operand recorded after the
+    operation, xbar(op outputs and consumers seeded) == xbar(op outputs seeded) + xbar(consumers seeded)"""
+    try:
+        a = op_sweep(case, lambda i, shp: _op_seed(case, i, shp))
+        if a is None or not all(np.all(np.isfinite(b)) for b in a[1]):
+            return None
+        nop = len(a[0])
+        b = op_sweep(case, lambda i, shp: _op_seed(case, nop + i, shp), extra='only')
+        c = op_sweep(case, lambda i, shp: _op_seed(case, i, shp), extra='both')
+    except Exception:
+        return None
+    if b is None or c is None:
+        return None
+    for i, (xa, xb, xc) in enumerate(zip(a[1], b[1], c[1])):
+        if not (np.all(np.isfinite(xb)) and np.all(np.isfinite(xc))):
+            return None
+        if not close(xc, xa + xb, 1e-8):
+            return ('superposition-%s: the adjoint of operand %d with a second consumer recorded after the operation is not the sum of '
+                    'the two separate adjoints (max diff %s): a pullback overwrites instead of accumulating' % (case['op'], i, maxdiff(xc, xa + xb)))
     return None
 
 
